@@ -67,13 +67,13 @@ HARNESSES = [
     # ---------------------------------------------------------------- store (C02, C09, C04, C07, C08)
     dict(name="c02_store_reads_agree_with_abstract_map", file="store.rs", props=["C02", "C09", "C16"], timeout=600,
          encodes=["tinylfu_cached::cache::store::Store::{get,get_ref,contains,is_present}", "StoredValue::is_alive", "KeyValueRef::{key,value}"]),
-    dict(name="c02_store_write_step", file="store.rs", props=["C02", "C03"], timeout=600,
+    dict(name="c02_store_write_step", file="store.rs", props=["C02", "C03", "C04"], timeout=600,
          encodes=["tinylfu_cached::cache::store::Store::{put,put_with_ttl,delete,mark_deleted,update,clear}", "UpdateResponse::{did_update_happen,existing_expiry,new_expiry,value,key_id_or_panic}"]),
     # ---------------------------------------------------------------- admission (C06, C01, C03)
-    dict(name="c06_maybe_add_rule_1_resident", file="admission_policy.rs", props=["C06", "C01", "C03"], timeout=1200,
+    dict(name="c06_maybe_add_rule_1_resident", file="admission_policy.rs", props=["C06", "C01", "C03", "C05"], timeout=1200,
          encodes=["tinylfu_cached::cache::policy::admission_policy::AdmissionPolicy::{maybe_add,create_space,estimate}", "CacheWeight::{is_space_available_for,add,delete,sample}",
                   "FrequencyCounterBasedMinHeapSamples::{new,initial_sample,min_frequency_key,maybe_fill_in}", "TinyLFU::estimate", "FrequencyCounter::estimate", "DoorKeeper::has"]),
-    dict(name="c06_maybe_add_rule_2_residents", file="admission_policy.rs", props=["C06", "C01", "C18"], timeout=1200,
+    dict(name="c06_maybe_add_rule_2_residents", tier="thorough", file="admission_policy.rs", props=["C06", "C01", "C18"], timeout=1200,
          encodes=["tinylfu_cached::cache::policy::admission_policy::AdmissionPolicy::{maybe_add,create_space,estimate}", "CacheWeight::{is_space_available_for,add,delete,sample}",
                   "FrequencyCounterBasedMinHeapSamples::{new,initial_sample,min_frequency_key,maybe_fill_in}", "TinyLFU::estimate", "FrequencyCounter::estimate", "DoorKeeper::has"]),
     dict(name="c06_maybe_add_rule_3_residents", tier="thorough", file="admission_policy.rs", props=["C06", "C01"], timeout=1200,
@@ -83,68 +83,68 @@ HARNESSES = [
          encodes=["tinylfu_cached::cache::policy::admission_policy::AdmissionPolicy::{maybe_add,create_space,estimate}", "CacheWeight::{is_space_available_for,add,delete,sample}",
                   "FrequencyCounterBasedMinHeapSamples::{new,initial_sample,min_frequency_key,maybe_fill_in}", "TinyLFU::estimate", "FrequencyCounter::estimate", "DoorKeeper::has"]),
     # ---------------------------------------------------------------- whole CacheD: reads (C02)
-    dict(name="c02_read_get", file="cached.rs", props=["C02", "C09", "C15"], timeout=900,
+    dict(name="c02_read_get", tier="quick", file="cached.rs", props=["C02", "C09", "C15"], timeout=900,
          encodes=["tinylfu_cached::cache::cached::CacheD::{get,mark_key_accessed,is_shutting_down}", "MultiGetIterator::next", "MultiGetMapIterator::next", "Store::{get,get_ref}", "Pool::add"]),
-    dict(name="c02_read_get_ref", file="cached.rs", props=["C02", "C15", "C18"], timeout=900,
+    dict(name="c02_read_get_ref", tier="thorough", file="cached.rs", props=["C02", "C15", "C18"], timeout=900,
          encodes=["tinylfu_cached::cache::cached::CacheD::{get_ref,mark_key_accessed,is_shutting_down}", "MultiGetIterator::next", "MultiGetMapIterator::next", "Store::{get,get_ref}", "Pool::add"]),
-    dict(name="c02_read_map_get", file="cached.rs", props=["C02"], timeout=900,
+    dict(name="c02_read_map_get", tier="thorough", file="cached.rs", props=["C02"], timeout=900,
          encodes=["tinylfu_cached::cache::cached::CacheD::{map_get,mark_key_accessed,is_shutting_down}", "MultiGetIterator::next", "MultiGetMapIterator::next", "Store::{get,get_ref}", "Pool::add"]),
-    dict(name="c02_read_map_get_ref", file="cached.rs", props=["C02"], timeout=900,
+    dict(name="c02_read_map_get_ref", tier="thorough", file="cached.rs", props=["C02"], timeout=900,
          encodes=["tinylfu_cached::cache::cached::CacheD::{map_get_ref,mark_key_accessed,is_shutting_down}", "MultiGetIterator::next", "MultiGetMapIterator::next", "Store::{get,get_ref}", "Pool::add"]),
-    dict(name="c02_read_multi_get", file="cached.rs", props=["C02"], timeout=900,
+    dict(name="c02_read_multi_get", tier="thorough", file="cached.rs", props=["C02"], timeout=900,
          encodes=["tinylfu_cached::cache::cached::CacheD::{multi_get,mark_key_accessed,is_shutting_down}", "MultiGetIterator::next", "MultiGetMapIterator::next", "Store::{get,get_ref}", "Pool::add"]),
-    dict(name="c02_read_multi_get_iterator", file="cached.rs", props=["C02"], timeout=900,
+    dict(name="c02_read_multi_get_iterator", tier="thorough", file="cached.rs", props=["C02"], timeout=900,
          encodes=["tinylfu_cached::cache::cached::CacheD::{multi_get_iterator,mark_key_accessed,is_shutting_down}", "MultiGetIterator::next", "MultiGetMapIterator::next", "Store::{get,get_ref}", "Pool::add"]),
-    dict(name="c02_read_multi_get_map_iterator", file="cached.rs", props=["C02"], timeout=900,
+    dict(name="c02_read_multi_get_map_iterator", tier="thorough", file="cached.rs", props=["C02"], timeout=900,
          encodes=["tinylfu_cached::cache::cached::CacheD::{multi_get_map_iterator,mark_key_accessed,is_shutting_down}", "MultiGetIterator::next", "MultiGetMapIterator::next", "Store::{get,get_ref}", "Pool::add"]),
-    dict(name="c02_two_keys_multi_get", file="cached.rs", props=["C02"], timeout=900,
+    dict(name="c02_two_keys_multi_get", tier="thorough", file="cached.rs", props=["C02"], timeout=900,
          encodes=["tinylfu_cached::cache::cached::CacheD::{multi_get,multi_get_iterator,multi_get_map_iterator}", "MultiGetIterator::next", "MultiGetMapIterator::next"]),
-    dict(name="c02_two_keys_iterator", file="cached.rs", props=["C02"], timeout=900,
+    dict(name="c02_two_keys_iterator", tier="thorough", file="cached.rs", props=["C02"], timeout=900,
          encodes=["tinylfu_cached::cache::cached::CacheD::{multi_get,multi_get_iterator,multi_get_map_iterator}", "MultiGetIterator::next", "MultiGetMapIterator::next"]),
-    dict(name="c02_two_keys_map_iterator", file="cached.rs", props=["C02"], timeout=900,
+    dict(name="c02_two_keys_map_iterator", tier="thorough", file="cached.rs", props=["C02"], timeout=900,
          encodes=["tinylfu_cached::cache::cached::CacheD::{multi_get,multi_get_iterator,multi_get_map_iterator}", "MultiGetIterator::next", "MultiGetMapIterator::next"]),
-    dict(name="c07_put_client_step_q0", group="c07_put_client_step", file="cached.rs", props=["C07", "C05"], timeout=900,
+    dict(name="c07_put_client_step_q0", tier="thorough", group="c07_put_client_step", file="cached.rs", props=["C07", "C05"], timeout=900,
          encodes=["tinylfu_cached::cache::cached::CacheD::{put,put_with_weight,put_with_ttl,put_with_weight_and_ttl,key_description}", "Store::is_present", "CommandExecutor::send", "Calculation::perform", "CommandAcknowledgement::{new,rejected}"]),
-    dict(name="c07_put_client_step_q1", group="c07_put_client_step", file="cached.rs", props=["C07"], timeout=900,
+    dict(name="c07_put_client_step_q1", tier="quick", group="c07_put_client_step", file="cached.rs", props=["C07"], timeout=900,
          encodes=["tinylfu_cached::cache::cached::CacheD::{put,put_with_weight,put_with_ttl,put_with_weight_and_ttl,key_description}", "Store::is_present", "CommandExecutor::send", "Calculation::perform", "CommandAcknowledgement::{new,rejected}"]),
-    dict(name="c07_put_client_step_q2", group="c07_put_client_step", file="cached.rs", props=["C07", "C11", "C17"], timeout=900,
+    dict(name="c07_put_client_step_q2", tier="quick", group="c07_put_client_step", file="cached.rs", props=["C07", "C11", "C17"], timeout=900,
          encodes=["tinylfu_cached::cache::cached::CacheD::{put,put_with_weight,put_with_ttl,put_with_weight_and_ttl,key_description}", "Store::is_present", "CommandExecutor::send", "Calculation::perform", "CommandAcknowledgement::{new,rejected}"]),
-    dict(name="c07_put_client_step_q3", group="c07_put_client_step", file="cached.rs", props=["C07"], timeout=900,
+    dict(name="c07_put_client_step_q3", tier="thorough", group="c07_put_client_step", file="cached.rs", props=["C07"], timeout=900,
          encodes=["tinylfu_cached::cache::cached::CacheD::{put,put_with_weight,put_with_ttl,put_with_weight_and_ttl,key_description}", "Store::is_present", "CommandExecutor::send", "Calculation::perform", "CommandAcknowledgement::{new,rejected}"]),
     dict(name="c04_delete_hides_then_releases_q0", tier="thorough", group="c04_delete_hides_then_releases", file="cached.rs", props=["C04", "C16", "C18"], timeout=900,
          encodes=["tinylfu_cached::cache::cached::CacheD::{delete,get,get_ref,put_with_weight,total_weight_used}", "Store::{mark_deleted,delete}", "CommandExecutor::{send,spin (worker closure),delete}", "AdmissionPolicy::delete", "CacheWeight::delete", "TTLTicker::delete", "CommandAcknowledgementHandle::{done,poll}"]),
-    dict(name="c04_delete_hides_then_releases_q1", group="c04_delete_hides_then_releases", file="cached.rs", props=["C04"], timeout=900,
+    dict(name="c04_delete_hides_then_releases_q1", tier="quick", group="c04_delete_hides_then_releases", file="cached.rs", props=["C04"], timeout=900,
          encodes=["tinylfu_cached::cache::cached::CacheD::{delete,get,get_ref,put_with_weight,total_weight_used}", "Store::{mark_deleted,delete}", "CommandExecutor::{send,spin (worker closure),delete}", "AdmissionPolicy::delete", "CacheWeight::delete", "TTLTicker::delete", "CommandAcknowledgementHandle::{done,poll}"]),
-    dict(name="c04_delete_hides_then_releases_q2", group="c04_delete_hides_then_releases", file="cached.rs", props=["C04"], timeout=900,
+    dict(name="c04_delete_hides_then_releases_q2", tier="thorough", group="c04_delete_hides_then_releases", file="cached.rs", props=["C04"], timeout=900,
          encodes=["tinylfu_cached::cache::cached::CacheD::{delete,get,get_ref,put_with_weight,total_weight_used}", "Store::{mark_deleted,delete}", "CommandExecutor::{send,spin (worker closure),delete}", "AdmissionPolicy::delete", "CacheWeight::delete", "TTLTicker::delete", "CommandAcknowledgementHandle::{done,poll}"]),
-    dict(name="c04_delete_hides_then_releases_q3", group="c04_delete_hides_then_releases", file="cached.rs", props=["C04"], timeout=900,
+    dict(name="c04_delete_hides_then_releases_q3", tier="thorough", group="c04_delete_hides_then_releases", file="cached.rs", props=["C04"], timeout=900,
          encodes=["tinylfu_cached::cache::cached::CacheD::{delete,get,get_ref,put_with_weight,total_weight_used}", "Store::{mark_deleted,delete}", "CommandExecutor::{send,spin (worker closure),delete}", "AdmissionPolicy::delete", "CacheWeight::delete", "TTLTicker::delete", "CommandAcknowledgementHandle::{done,poll}"]),
-    dict(name="c07_put_while_writer_holds_guard", file="cached.rs", props=["C07", "C18"], timeout=900,
+    dict(name="c07_put_while_writer_holds_guard", tier="thorough", file="cached.rs", props=["C07", "C18"], timeout=900,
          encodes=["tinylfu_cached::cache::cached::CacheD::{put_or_update,put_with_weight}", "Store::{update,is_present}"]),
-    dict(name="c04_delete_while_reader_holds_guard", file="cached.rs", props=["C04", "C18"], timeout=900,
+    dict(name="c04_delete_while_reader_holds_guard", tier="thorough", file="cached.rs", props=["C04", "C18"], timeout=900,
          encodes=["tinylfu_cached::cache::cached::CacheD::{get_ref,delete,get,total_weight_used}", "Store::mark_deleted"]),
-    dict(name="c08_put_or_update_step_q0", group="c08_put_or_update_step", file="cached.rs", props=["C08", "C10", "C18"], timeout=1500,
+    dict(name="c08_put_or_update_step_q0", tier="thorough", group="c08_put_or_update_step", file="cached.rs", props=["C08", "C10", "C18"], timeout=1500,
          encodes=["tinylfu_cached::cache::cached::CacheD::{put_or_update,get,key_description}", "PutOrUpdateRequest::updated_weight", "Store::update", "StoredValue::update", "UpdateResponse::type_of_expiry_update", "TTLTicker::{put,update,delete}", "AdmissionPolicy::{weight_of,update}", "CacheWeight::update", "CommandExecutor::{send,spin (worker closure: UpdateWeight arm)}"]),
-    dict(name="c08_put_or_update_step_q1", group="c08_put_or_update_step", file="cached.rs", props=["C08"], timeout=1500,
+    dict(name="c08_put_or_update_step_q1", tier="quick", group="c08_put_or_update_step", file="cached.rs", props=["C08"], timeout=1500,
          encodes=["tinylfu_cached::cache::cached::CacheD::{put_or_update,get,key_description}", "PutOrUpdateRequest::updated_weight", "Store::update", "StoredValue::update", "UpdateResponse::type_of_expiry_update", "TTLTicker::{put,update,delete}", "AdmissionPolicy::{weight_of,update}", "CacheWeight::update", "CommandExecutor::{send,spin (worker closure: UpdateWeight arm)}"]),
-    dict(name="c08_put_or_update_step_q2", group="c08_put_or_update_step", file="cached.rs", props=["C08"], timeout=1500,
+    dict(name="c08_put_or_update_step_q2", tier="thorough", group="c08_put_or_update_step", file="cached.rs", props=["C08"], timeout=1500,
          encodes=["tinylfu_cached::cache::cached::CacheD::{put_or_update,get,key_description}", "PutOrUpdateRequest::updated_weight", "Store::update", "StoredValue::update", "UpdateResponse::type_of_expiry_update", "TTLTicker::{put,update,delete}", "AdmissionPolicy::{weight_of,update}", "CacheWeight::update", "CommandExecutor::{send,spin (worker closure: UpdateWeight arm)}"]),
-    dict(name="c08_put_or_update_step_q3", group="c08_put_or_update_step", file="cached.rs", props=["C08"], timeout=1500,
+    dict(name="c08_put_or_update_step_q3", tier="thorough", group="c08_put_or_update_step", file="cached.rs", props=["C08"], timeout=1500,
          encodes=["tinylfu_cached::cache::cached::CacheD::{put_or_update,get,key_description}", "PutOrUpdateRequest::updated_weight", "Store::update", "StoredValue::update", "UpdateResponse::type_of_expiry_update", "TTLTicker::{put,update,delete}", "AdmissionPolicy::{weight_of,update}", "CacheWeight::update", "CommandExecutor::{send,spin (worker closure: UpdateWeight arm)}"]),
-    dict(name="c05_worker_put_step_q0", group="c05_worker_put_step", file="cached.rs", props=["C05"], timeout=1800,
+    dict(name="c05_worker_put_step_q0", tier="thorough", group="c05_worker_put_step", file="cached.rs", props=["C05"], timeout=1800,
          encodes=["tinylfu_cached::cache::command::command_executor::CommandExecutor::{spin (worker closure: Put, PutWithTTL arms),put,put_with_ttl,send}", "AdmissionPolicy::{maybe_add,create_space}", "Store::{put,put_with_ttl,delete (as eviction hook)}", "TTLTicker::put", "CommandAcknowledgementHandle::done"]),
-    dict(name="c05_worker_put_step_q1", group="c05_worker_put_step", file="cached.rs", props=["C05"], timeout=1800,
+    dict(name="c05_worker_put_step_q1", tier="thorough", group="c05_worker_put_step", file="cached.rs", props=["C05"], timeout=1800,
          encodes=["tinylfu_cached::cache::command::command_executor::CommandExecutor::{spin (worker closure: Put, PutWithTTL arms),put,put_with_ttl,send}", "AdmissionPolicy::{maybe_add,create_space}", "Store::{put,put_with_ttl,delete (as eviction hook)}", "TTLTicker::put", "CommandAcknowledgementHandle::done"]),
-    dict(name="c05_worker_put_step_q2", group="c05_worker_put_step", file="cached.rs", props=["C05", "C01", "C03", "C18"], timeout=1800,
+    dict(name="c05_worker_put_step_q2", tier="thorough", group="c05_worker_put_step", file="cached.rs", props=["C05", "C01", "C03", "C18"], timeout=1800,
          encodes=["tinylfu_cached::cache::command::command_executor::CommandExecutor::{spin (worker closure: Put, PutWithTTL arms),put,put_with_ttl,send}", "AdmissionPolicy::{maybe_add,create_space}", "Store::{put,put_with_ttl,delete (as eviction hook)}", "TTLTicker::put", "CommandAcknowledgementHandle::done"]),
-    dict(name="c05_worker_put_step_q3", group="c05_worker_put_step", file="cached.rs", props=["C05"], timeout=1800,
+    dict(name="c05_worker_put_step_q3", tier="thorough", group="c05_worker_put_step", file="cached.rs", props=["C05"], timeout=1800,
          encodes=["tinylfu_cached::cache::command::command_executor::CommandExecutor::{spin (worker closure: Put, PutWithTTL arms),put,put_with_ttl,send}", "AdmissionPolicy::{maybe_add,create_space}", "Store::{put,put_with_ttl,delete (as eviction hook)}", "TTLTicker::put", "CommandAcknowledgementHandle::done"]),
     # ---------------------------------------------------------------- expiry index + sweeper (C10)
     dict(name="c10_one_sweep_removes_exactly_the_expired", file="expiration.rs", props=["C10"], timeout=900,
          encodes=["tinylfu_cached::cache::expiration::TTLTicker::{new,spin (sweeper closure),shard_index}", "hashbrown::HashMap::retain (model)"]),
     dict(name="c13_sweeper_stops_after_shutdown", file="expiration.rs", props=["C13"], timeout=300,
          encodes=["tinylfu_cached::cache::expiration::TTLTicker::{shutdown,clear,spin (sweeper closure)}"]),
-    dict(name="c10_index_tracks_current_expiry", file="expiration.rs", props=["C10", "C03"], timeout=900,
+    dict(name="c10_index_tracks_current_expiry", tier="quick", file="expiration.rs", props=["C10", "C03"], timeout=900,
          encodes=["tinylfu_cached::cache::expiration::TTLTicker::{put,update,delete,get,shard_index}"]),
     # ---------------------------------------------------------------- access pipeline (C15)
     dict(name="c15_pool_add_b1_empty", group="c15_pool_add", file="pool.rs", props=["C15"], timeout=600,
@@ -155,7 +155,7 @@ HARNESSES = [
          encodes=["tinylfu_cached::cache::pool::Pool::{new,add}", "Buffer::{new,add}", "AdmissionPolicy::accept (select! try-send)"]),
     dict(name="c15_pool_add_b2_full", group="c15_pool_add", file="pool.rs", props=["C15", "C18"], timeout=600,
          encodes=["tinylfu_cached::cache::pool::Pool::{new,add}", "Buffer::{new,add}", "AdmissionPolicy::accept (select! try-send)"]),
-    dict(name="c15_pool_add_two_buffers", group="c15_pool_add", file="pool.rs", props=["C15", "C18"], timeout=600,
+    dict(name="c15_pool_add_two_buffers", tier="thorough", group="c15_pool_add", file="pool.rs", props=["C15", "C18"], timeout=600,
          encodes=["tinylfu_cached::cache::pool::Pool::{new,add}", "Buffer::{new,add}", "AdmissionPolicy::accept (select! try-send)"]),
     # ---------------------------------------------------------------- small kernels
     dict(name="c05_ids_are_fresh", file="id_generator.rs", props=["C05", "C11"], timeout=120, encodes=["tinylfu_cached::cache::unique_id::increasing_id_generator::IncreasingIdGenerator::{new,next}"]),
@@ -173,7 +173,7 @@ HARNESSES = [
          encodes=["tinylfu_cached::cache::cached::CacheD::{shutdown,is_shutting_down + every read and write entry point}", "CommandExecutor::{shutdown,spin (worker closure: Shutdown arm + drain)}", "AdmissionPolicy::{shutdown,clear}", "TTLTicker::{shutdown,clear}", "Store::clear"]),
     dict(name="c13_late_send_races_drain", tier="thorough", file="cached.rs", props=["C13", "C12"], timeout=900,
          encodes=["tinylfu_cached::cache::command::command_executor::CommandExecutor::{shutdown,send,spin (worker closure: Shutdown arm + drain loop)}", "CommandAcknowledgementHandle::done"]),
-    dict(name="c13_command_behind_shutdown_is_answered", file="cached.rs", props=["C13", "C12"], timeout=900,
+    dict(name="c13_command_behind_shutdown_is_answered", tier="quick", file="cached.rs", props=["C13", "C12"], timeout=900,
          encodes=["tinylfu_cached::cache::command::command_executor::CommandExecutor::{shutdown,send,spin (worker closure: drain loop)}"]),
     dict(name="c10_sweep_with_stale_entry", tier="thorough", file="cached.rs", props=["C10"], timeout=1200,
          encodes=["tinylfu_cached::cache::expiration::TTLTicker::spin (sweeper closure)", "CacheD::ttl_ticker (evict hook)", "AdmissionPolicy::delete_with_hook", "CacheWeight::delete"]),
